@@ -112,7 +112,7 @@ type result struct {
 	// what `proof_facts` shows in the transaction object(s): "absent", "empty", "facts"
 	Pf   string   `json:"pf,omitempty"`
 	Pfs  []string `json:"pfs,omitempty"`
-	Note   string   `json:"note,omitempty"` // harness-side detail of a concrete mismatch
+	Note string   `json:"note,omitempty"` // harness-side detail of a concrete mismatch
 	// kind "oneof" (ReadDuring): the answer in each chain the node held during the call
 	Allowed []result `json:"allowed,omitempty"`
 }
@@ -1521,6 +1521,10 @@ func (r *replayer) read(beh []step, idx int, a *action, want, res, want0, res0 *
 		}
 		// classify: one of the known deviations of the code as it is (the faithful model `res`
 		// differs from the property's `want` exactly there), or something new
+		if !(strings.HasPrefix(d, "last_update_block") || strings.HasPrefix(d, "proof_facts") || strings.Contains(d, "InvalidParams") ||
+			strings.Contains(d, "feltlub-for-felt") || strings.Contains(d, "felt-for-feltlub")) {
+			fshape = "" // the flags are part of the signature only where the difference is about them
+		}
 		key := fmt.Sprintf("rpc-read:%s:%s:%s%s:%s", a.Name, v, shape, fshape, d)
 		if res := resV; !eqJSON(res, &wantV) {
 			switch {
